@@ -113,6 +113,7 @@ type gtTr struct {
 	cfg        *gtCfg
 	loopIndex  map[ast.Node]int    // for / range statements of the function, numbered in source order from 1
 	ifaceKey   string              // sort key of the interface field last resolved by ifaceField
+	listKey    string              // ... and of the slice-of-nodes field last resolved by stringerList
 	autoFuel   map[ast.Node]string // fuel measures of loops the translator itself writes (range over a string)
 	named      []string            // named results used as variables
 	loopCache  map[ast.Node]*loopCache
@@ -480,6 +481,15 @@ func (tr *gtTr) binary(x *ast.BinaryExpr, env *venv) ex {
 		if x.Op == token.EQL || x.Op == token.NEQ {
 			for _, pr := range [][2]ast.Expr{{x.X, x.Y}, {x.Y, x.X}} {
 				if id, isId := unparen(pr[1]).(*ast.Ident); isId && id.Name == "nil" && env.lookup("nil") == nil {
+					if l, ok := tr.stringerList(pr[0], env); ok {
+						// a slice field compared with nil: its own flag (a nil slice and an empty one differ in Go)
+						flag := strings.TrimSuffix(l.code, "_String") + "_nil"
+						tr.fn.addAbstract(gtAbstract{name: flag, typ: "bool", key: tr.listKey + ":0nil"})
+						if x.Op == token.NEQ {
+							return ex{code: "(negb " + flag + ")", typ: tBool}
+						}
+						return ex{code: flag, typ: tBool}
+					}
 					if flag, ok := tr.ifaceFieldNil(pr[0], env); ok {
 						if x.Op == token.NEQ {
 							return ex{code: "(negb " + flag + ")", typ: tBool}
@@ -720,6 +730,9 @@ func (tr *gtTr) call(c *ast.CallExpr, env *venv) ex {
 				if len(c.Args) != 1 {
 					gtFail("len: arity")
 				}
+				if l, ok := tr.stringerList(c.Args[0], env); ok {
+					return ex{code: "(go_len " + l.code + ")", typ: basicInts["int"]}
+				}
 				a := tr.expr(c.Args[0], env)
 				switch a.typ.kind {
 				case kString, kSlice, kMap:
@@ -734,6 +747,15 @@ func (tr *gtTr) call(c *ast.CallExpr, env *venv) ex {
 				return tr.makeCall(c, env)
 			}
 			gtFail("call of %s is outside the subset", id.Name)
+		}
+	}
+	// x.String() on an element of a slice of nodes
+	if sel, ok := c.Fun.(*ast.SelectorExpr); ok && sel.Sel.Name == "String" && len(c.Args) == 0 {
+		if id, isId := unparen(sel.X).(*ast.Ident); isId {
+			if v := env.lookup(id.Name); v != nil && v.typ == tStringer {
+				o := tr.fresh()
+				return ex{binds: []gbind{{o, v.coq}}, code: o, typ: tString}
+			}
 		}
 	}
 	// b.String() / b.Bytes() / b.Len() of a local bytes.Buffer
@@ -1153,6 +1175,8 @@ func (tr *gtTr) library(pkg, name string, c *ast.CallExpr, env *venv) ex {
 			gtFail("strconv.FormatInt of a non-integer")
 		}
 		return ex{binds: a.binds, code: "(dec_of_Z " + a.code + ")", typ: tString}
+	case pkg == "fmt" && name == "Sprintf":
+		return tr.sprintf(c, env)
 	case pkg == "strconv" && name == "Itoa":
 		need(1)
 		a := tr.expr(c.Args[0], env)
@@ -1875,4 +1899,181 @@ func (tr *gtTr) ifaceFieldMethod(c *ast.CallExpr, env *venv) (ex, bool) {
 	tr.fn.addAbstract(gtAbstract{name: stem + "_" + sel.Sel.Name, typ: rt.coq(), key: key + ":1" + sel.Sel.Name})
 	o := tr.fresh()
 	return ex{binds: []gbind{{o, fmt.Sprintf("if %s_nil then None else Some %s_%s", stem, stem, sel.Sel.Name)}}, code: o, typ: rt}, true
+}
+
+// sprintf: fmt.Sprintf with a constant format made of text, %%, and the verbs
+//
+//	%s  with a string / []byte argument: its bytes; with a field of /repo interface type that has String() string:
+//	    what String() returns, or fmt's "%!s(<nil>)" when the field is nil (fmt does not panic there)
+//	%d  with an integer argument: its decimal digits
+//	%q  with a string argument: strconv.Quote of it, the parameter f_strconv_Quote : bstr -> bstr
+//
+// (no flags, widths or argument indexes; the number of verbs must be the number of arguments).
+func (tr *gtTr) sprintf(c *ast.CallExpr, env *venv) ex {
+	if len(c.Args) == 0 {
+		gtFail("fmt.Sprintf: no format")
+	}
+	format := tr.constString(c.Args[0], env, "fmt.Sprintf")
+	args := c.Args[1:]
+	var parts []string
+	var binds []gbind
+	lit := ""
+	flush := func() {
+		if lit != "" {
+			parts = append(parts, bstrLit(lit))
+			lit = ""
+		}
+	}
+	ai := 0
+	for i := 0; i < len(format); i++ {
+		ch := format[i]
+		if ch != '%' {
+			lit += string(ch)
+			continue
+		}
+		i++
+		if i >= len(format) {
+			gtFail("fmt.Sprintf: the format ends in %%")
+		}
+		verb := format[i]
+		if verb == '%' {
+			lit += "%"
+			continue
+		}
+		if ai >= len(args) {
+			gtFail("fmt.Sprintf: more verbs than arguments")
+		}
+		arg := args[ai]
+		ai++
+		flush()
+		switch verb {
+		case 's':
+			if stem, p, it, tname, ok := tr.ifaceField(arg, env); ok {
+				key := tr.ifaceKey
+				if !ifaceHasString(p, it, 0) {
+					gtFail("fmt.Sprintf: %%s of a %s, which has no String() string", tname)
+				}
+				tr.fn.addAbstract(gtAbstract{name: stem + "_nil", typ: "bool", key: key + ":0"})
+				tr.fn.addAbstract(gtAbstract{name: stem + "_String", typ: "bstr", key: key + ":1String"})
+				parts = append(parts, "(if "+stem+"_nil then "+bstrLit("%!s(<nil>)")+" else "+stem+"_String)")
+				continue
+			}
+			a := tr.expr(arg, env)
+			if a.typ.kind != kString {
+				gtFail("fmt.Sprintf: %%s of a %s is outside the subset", a.typ.name)
+			}
+			binds = mergeBinds(binds, a.binds)
+			parts = append(parts, a.code)
+		case 'd':
+			a := tr.expr(arg, env)
+			if a.typ.kind != kInt {
+				gtFail("fmt.Sprintf: %%d of a %s", a.typ.name)
+			}
+			binds = mergeBinds(binds, a.binds)
+			parts = append(parts, "(dec_of_Z "+a.code+")")
+		case 'q':
+			a := tr.expr(arg, env)
+			if a.typ.kind != kString {
+				gtFail("fmt.Sprintf: %%q of a %s is outside the subset", a.typ.name)
+			}
+			tr.fn.addAbstract(gtAbstract{name: "f_strconv_Quote", typ: "bstr -> bstr"})
+			binds = mergeBinds(binds, a.binds)
+			parts = append(parts, "(f_strconv_Quote "+a.code+")")
+		default:
+			gtFail("fmt.Sprintf: the verb %%%c is outside the subset", verb)
+		}
+	}
+	flush()
+	if ai != len(args) {
+		gtFail("fmt.Sprintf: more arguments than verbs")
+	}
+	if len(parts) == 0 {
+		return ex{code: "(@nil N)", typ: tString}
+	}
+	code := parts[len(parts)-1]
+	for i := len(parts) - 2; i >= 0; i-- {
+		code = "(" + parts[i] + " ++ " + code + ")"
+	}
+	return ex{binds: binds, code: code, typ: tString}
+}
+
+// ifaceHasString: does the interface (with the interfaces of its package that it embeds) declare String() string?
+func ifaceHasString(p *gpkg, it *ast.InterfaceType, depth int) bool {
+	if depth > 8 {
+		return false
+	}
+	for _, m := range it.Methods.List {
+		if len(m.Names) == 0 {
+			if eid, isId := m.Type.(*ast.Ident); isId {
+				if ts := p.types[eid.Name]; ts != nil {
+					if eit, isIt := ts.Type.(*ast.InterfaceType); isIt && ifaceHasString(p, eit, depth+1) {
+						return true
+					}
+				}
+			}
+			continue
+		}
+		ft, isFn := m.Type.(*ast.FuncType)
+		if !isFn || len(m.Names) != 1 || m.Names[0].Name != "String" {
+			continue
+		}
+		if (ft.Params == nil || len(ft.Params.List) == 0) && ft.Results != nil && len(ft.Results.List) == 1 {
+			if id, ok := ft.Results.List[0].Type.(*ast.Ident); ok && id.Name == "string" {
+				return true
+			}
+		}
+	}
+	return false
+}
+
+// stringerList: e is n.F, a field of a struct parameter whose type is a slice of nodes -- of a /repo interface type with
+// String() string, or of pointers to a /repo struct type with a String method.  The field enters the translation as
+// the parameter ms_n_F_String : list (option bstr), what each element's String() returns (None: a nil element).
+func (tr *gtTr) stringerList(e ast.Expr, env *venv) (ex, bool) {
+	sel, isSel := unparen(e).(*ast.SelectorExpr)
+	if !isSel {
+		return ex{}, false
+	}
+	id, isId := unparen(sel.X).(*ast.Ident)
+	if !isId {
+		return ex{}, false
+	}
+	v := env.lookup(id.Name)
+	if v == nil || v.typ.kind != kStruct || v.banned != "" {
+		return ex{}, false
+	}
+	for fi, fl := range v.typ.fields {
+		if fl.name != sel.Sel.Name || fl.typ.kind != kSlice || fl.typ.elem == nil || fl.typ.elem.ndir == "" {
+			continue
+		}
+		et := fl.typ.elem
+		p := tr.g.gtPkg(et.ndir)
+		okT := false
+		switch et.kind {
+		case kOther:
+			if ts := p.types[et.nname]; ts != nil {
+				if it, isIt := ts.Type.(*ast.InterfaceType); isIt && ifaceHasString(p, it, 0) {
+					okT = true
+				}
+			}
+		case kStruct:
+			if fd, has := p.funcs[et.nname+".String"]; has && fd.Type.Params.NumFields() == 0 {
+				okT = true
+			}
+		}
+		if !okT {
+			return ex{}, false
+		}
+		pi := 999
+		for i, prm := range tr.fn.params {
+			if prm.goName == id.Name {
+				pi = i
+			}
+		}
+		name := "ms_" + id.Name + "_" + fl.name + "_String"
+		tr.listKey = fmt.Sprintf("1:%03d:%03d", pi, fi)
+		tr.fn.addAbstract(gtAbstract{name: name, typ: "list (option bstr)", key: tr.listKey + ":2String"})
+		return ex{code: name, typ: &gtype{kind: kSlice, name: fl.typ.name, elem: tStringer, valueKind: -1}}, true
+	}
+	return ex{}, false
 }
